@@ -240,6 +240,9 @@ def real_dump(reader, fails, tag):
         tags = sorted(t for (fname, t), byd in postings.items() if fname == "tag" and dn in byd)
         if len(boosts) > 1:
             fails.append((tag + "C10-weight", "doc %s: weight/frequency differs between terms: %r" % (key, sorted(boosts, key=repr))))
+        if sf.get("blob") == "secret of the rejected document":
+            fails.append(("C08-rejected-stored-fields", "document %s carries the stored value of a document whose add_document raised: %r"
+                          % (key, sf)))
         rec = {"stored": sf, "body_post": post, "body_len": reader.doc_field_length(dn, "body"), "tags": tags, "num": sf.get("num"),
                "boost": (list(boosts)[0] if boosts else 1.0)}
         if reader.has_vector(dn, "body"):
@@ -501,7 +504,9 @@ def run_scenario(sc, fails_out):
         shutil.rmtree(root + "_c", ignore_errors=True)
     if sc.get("has_bad_add") and fails:
         # everything observed after a rejected add_document is attributed to that one recorded defect
-        fails = [("C08-rejected-document-leak", "after an add_document that raised (non-numeric value for a NUMERIC field) the "
+        # (stored values are not part of it: start_doc() gives every document a fresh stored-fields dict)
+        stored_leak = [f for f in fails if f[0].endswith("C08-rejected-stored-fields")][:1]
+        fails = stored_leak + [("C08-rejected-document-leak", "after an add_document that raised (non-numeric value for a NUMERIC field) the "
                   "writer kept the rejected document's postings/column values/statistics and attached them to the next "
                   "document; first symptom: %s: %s" % fails[0])]
     for case, detail in fails:
@@ -553,6 +558,29 @@ def check_toc_selection(fails_out):
                     return
     finally:
         shutil.rmtree(root, ignore_errors=True)
+
+
+def check_rejected_add(fails_out):
+    """C08: an add_document that raises part-way, followed by valid documents that leave some fields out: which parts of
+    the rejected document surface in later ones.  (Postings/columns/lengths do: known finding; stored values must not.)"""
+    n = 0
+    rnd = random.Random(7)
+    for follow_blob in (None, 5):
+        for follow_num in (True, False):
+            for end in ("commit", "optimize"):
+                bad = gen_doc(rnd, "bad-1")
+                bad["num"] = "not-a-number"
+                bad["blob"] = "secret of the rejected document"
+                nxt = gen_doc(rnd, "next-1")
+                nxt["blob"] = follow_blob
+                nxt.pop("_stored_body", None)
+                if not follow_num:
+                    nxt.pop("num", None)
+                sc = {"steps": [{"ops": [["add", gen_doc(rnd, "first-1")], ["bad_add", bad], ["add", nxt], ["add", gen_doc(rnd, "last-1")]],
+                                 "end": end}], "compound": True, "crash_step": None, "has_bad_add": True}
+                run_scenario(sc, fails_out)
+                n += 1
+    return n
 
 
 def check_buffered(rnd, fails_out):
@@ -645,6 +673,7 @@ def main():
     os.environ["TMPDIR"] = tmp
     tempfile.tempdir = tmp
     check_toc_selection(fails)
+    check_rejected_add(fails)
     shutil.rmtree(tmp, ignore_errors=True)
     seen, uniq = set(), []
     for f in fails:
